@@ -44,12 +44,15 @@ theorem line_from_side_is_pi_model (d : LineP ℝ) (hu : d.u = 0 ∨ d.u = 1) (h
 example : ∃ d : LineP ℝ, (d.u = 0 ∨ d.u = 1) ∧ d.tap ≠ 0 ∧ d.b1 ≠ d.b2 ∧ d.phi ≠ 0 :=
   ⟨⟨1, 0.01, 0.1, 0, 0.02, 0, 0, 0, 0.2, 1.05, 0.1⟩, by norm_num⟩
 
-/-- what the code computes at the **to** bus, for all parameters: the π-model with the FROM-side shunt
-`y_h` where the to-side shunt `y_k` belongs (`gk`, `bk`, `yk` are computed by the model and never used) -/
-theorem line_to_side_uses_from_shunt (d : LineP ℝ) (hu : d.u = 0 ∨ d.u = 1) (ht : d.tap ≠ 0) (a1 v1 a2 v2 : ℝ) :
-    Line_a2 d a1 v1 a2 v2 = (Sto (phasor v1 a1) (phasor v2 a2) (phasor d.tap d.phi) (yser d) (yh d)).re ∧
-    Line_v2 d a1 v1 a2 v2 = (Sto (phasor v1 a1) (phasor v2 a2) (phasor d.tap d.phi) (yser d) (yh d)).im := by
-  rw [← yhk_is_quotient, yh_eq, Sto_eq, P21g _ _ _ _ _ _ _ _ _ _ ht, Q21g _ _ _ _ _ _ _ _ _ _ ht]
+/-- **To side** (full strength since the repair of `Line.a2` / `Line.v2`, /repo commit "fix: Line to-side
+equations use the to-side shunt admittance"): for every parameter set — asymmetric branch shunts included —
+the declared `a2` / `v2` equations are the real / imaginary part of `V₂·conj((V₂ − V₁/m)·y + V₂·y_k)` with
+the TO-side shunt `y_k = u((g2+g/2)+j(b2+b/2))`.  On the pinned tree the equations used `y_h`; the error was
+`ΔP = u·v₂²·(g1 − g2)`, `ΔQ = u·v₂²·(b2 − b1)` (see `known_findings.json`, `line-to-side-shunt`, fixed). -/
+theorem line_to_side_is_pi_model (d : LineP ℝ) (hu : d.u = 0 ∨ d.u = 1) (ht : d.tap ≠ 0) (a1 v1 a2 v2 : ℝ) :
+    Line_a2 d a1 v1 a2 v2 = (Sto (phasor v1 a1) (phasor v2 a2) (phasor d.tap d.phi) (yser d) (yk d)).re ∧
+    Line_v2 d a1 v1 a2 v2 = (Sto (phasor v1 a1) (phasor v2 a2) (phasor d.tap d.phi) (yser d) (yk d)).im := by
+  rw [← yhk_is_quotient, yk_eq, Sto_eq, P21g _ _ _ _ _ _ _ _ _ _ ht, Q21g _ _ _ _ _ _ _ _ _ _ ht]
   have hg := u_ghk d hu
   have hb := u_bhk d hu
   unfold Line_a2 Line_v2 Line_itap
@@ -60,53 +63,23 @@ theorem line_to_side_uses_from_shunt (d : LineP ℝ) (hu : d.u = 0 ∨ d.u = 1) 
   · linear_combination (v1 * v2 * Real.sin (a1 - a2 - d.phi) * (1 / d.tap)) * hg
       + (-(v2 ^ 2) + v1 * v2 * Real.cos (a1 - a2 - d.phi) * (1 / d.tap)) * hb
 
-/-- **To side** (`_partial`: needs symmetric branch shunts `g1 = g2`, `b1 = b2`): the declared `a2` / `v2`
-equations are the real / imaginary part of `V₂·conj((V₂ − V₁/m)·y + V₂·y_k)`.
-
-Full statement (without `hg`, `hb`) is FALSE for the code as it is: `line_to_side_counterexample`. -/
+/-- the symmetric-shunt special case used by the network-level theorems below (kept under its old name) -/
 theorem line_to_side_is_pi_model_partial (d : LineP ℝ) (hu : d.u = 0 ∨ d.u = 1) (ht : d.tap ≠ 0)
     (hg : d.g1 = d.g2) (hb : d.b1 = d.b2) (a1 v1 a2 v2 : ℝ) :
     Line_a2 d a1 v1 a2 v2 = (Sto (phasor v1 a1) (phasor v2 a2) (phasor d.tap d.phi) (yser d) (yk d)).re ∧
-    Line_v2 d a1 v1 a2 v2 = (Sto (phasor v1 a1) (phasor v2 a2) (phasor d.tap d.phi) (yser d) (yk d)).im := by
-  rw [yk_eq_yh d hg hb]; exact line_to_side_uses_from_shunt d hu ht a1 v1 a2 v2
+    Line_v2 d a1 v1 a2 v2 = (Sto (phasor v1 a1) (phasor v2 a2) (phasor d.tap d.phi) (yser d) (yk d)).im :=
+  line_to_side_is_pi_model d hu ht a1 v1 a2 v2
 
-example : ∃ d : LineP ℝ, (d.u = 0 ∨ d.u = 1) ∧ d.tap ≠ 0 ∧ d.g1 = d.g2 ∧ d.b1 = d.b2 ∧ d.b1 ≠ 0 :=
-  ⟨⟨1, 0.01, 0.1, 0, 0.02, 0, 0.03, 0, 0.03, 1.05, 0.1⟩, by norm_num⟩
+example : ∃ d : LineP ℝ, (d.u = 0 ∨ d.u = 1) ∧ d.tap ≠ 0 ∧ d.g1 ≠ d.g2 ∧ d.b1 ≠ d.b2 :=
+  ⟨⟨1, 0.01, 0.1, 0, 0.02, 0.01, 0.03, 0, 0.2, 1.05, 0.1⟩, by norm_num⟩
 
-/-- the exact error of the to-side equations, for all parameters and voltages:
-`ΔP = u·v₂²·(g1 − g2)`, `ΔQ = u·v₂²·(b2 − b1)` -/
-theorem line_to_side_error (d : LineP ℝ) (hu : d.u = 0 ∨ d.u = 1) (ht : d.tap ≠ 0) (a1 v1 a2 v2 : ℝ) :
-    Line_a2 d a1 v1 a2 v2 - (Sto (phasor v1 a1) (phasor v2 a2) (phasor d.tap d.phi) (yser d) (yk d)).re
-      = d.u * v2 ^ 2 * (d.g1 - d.g2) ∧
-    Line_v2 d a1 v1 a2 v2 - (Sto (phasor v1 a1) (phasor v2 a2) (phasor d.tap d.phi) (yser d) (yk d)).im
-      = d.u * v2 ^ 2 * (d.b2 - d.b1) := by
-  obtain ⟨h1, h2⟩ := line_to_side_uses_from_shunt d hu ht a1 v1 a2 v2
-  have hd := Sto_shunt_diff (phasor v1 a1) (phasor v2 a2) (phasor d.tap d.phi) (yser d) (yh d) (yk d)
-  rw [phasor_mul_conj] at hd
-  have hre := congrArg Complex.re hd
-  have him := congrArg Complex.im hd
-  have hyd : yh d - yk d = ((d.u * (d.g1 - d.g2) : ℝ) : ℂ) + ((d.u * (d.b1 - d.b2) : ℝ) : ℂ) * I := by
-    unfold yh yk; push_cast; ring
-  rw [hyd] at hre him
-  simp only [sub_re, sub_im, mul_re, mul_im, ofReal_re, ofReal_im, map_add, map_mul, conj_ofReal, conj_I,
-    add_re, add_im, neg_re, neg_im, I_re, I_im, mul_neg, mul_zero, mul_one, zero_mul, sub_zero, add_zero, neg_zero,
-    zero_add] at hre him
-  rw [h1, h2]
-  constructor
-  · linarith
-  · linarith
-
-/-- **Lean counterexample for the unrestricted to-side statement**: one line with `b2 = 1` and every other
-shunt zero, unit voltages, no tap: the declared reactive equation at the to bus differs from the π-model by
-exactly `1` p.u. (`harness/c01.py` reproduces it on the real `PFlow`: oracle key `line-to-side-shunt`). -/
-theorem line_to_side_counterexample :
-    ∃ (d : LineP ℝ) (a1 v1 a2 v2 : ℝ), (d.u = 0 ∨ d.u = 1) ∧ d.tap ≠ 0 ∧
-      Line_v2 d a1 v1 a2 v2 ≠ (Sto (phasor v1 a1) (phasor v2 a2) (phasor d.tap d.phi) (yser d) (yk d)).im := by
-  refine ⟨⟨1, 0, 0.1, 0, 0, 0, 0, 0, 1, 1, 0⟩, 0, 1, 0, 1, Or.inr rfl, by norm_num, ?_⟩
-  intro h
-  have := (line_to_side_error ⟨1, 0, 0.1, 0, 0, 0, 0, 0, 1, 1, 0⟩ (Or.inr rfl) (by norm_num) 0 1 0 1).2
-  rw [h] at this
-  norm_num at this
+/-- what the to-side equations would give with the FROM-side shunt in place of the to-side one (the defect
+of the pinned tree): the power differs by `|V₂|²·conj(y_h − y_k)` -/
+theorem to_side_wrong_shunt_error (d : LineP ℝ) (a1 v1 a2 v2 : ℝ) :
+    Sto (phasor v1 a1) (phasor v2 a2) (phasor d.tap d.phi) (yser d) (yh d)
+      - Sto (phasor v1 a1) (phasor v2 a2) (phasor d.tap d.phi) (yser d) (yk d)
+      = phasor v2 a2 * starRingEnd ℂ (phasor v2 a2) * starRingEnd ℂ (yh d - yk d) :=
+  Sto_shunt_diff _ _ _ _ _ _
 
 /-! ### 2. Assembly: every bus equation is the sum of the injections of the devices at that bus -/
 
@@ -130,9 +103,8 @@ theorem bus_balance_of_residual (net : Net ℝ) (y : List ℝ) (wf : (resolve ne
     rw [hnb] at h2
     exact h1.trans h2
 
-/-- **The bus sums are the complex power balance of the input data** (`_partial`: symmetric branch shunts,
-see `line_to_side_counterexample`): loads in their voltage band, `u ∈ {0,1}`, `tap ≠ 0`. -/
-theorem physical_balance_partial (r : RNet ℝ) (y : List ℝ) (k : Nat) (hN : r.Normal) (hS : r.SymShunts) :
+/-- **The bus sums are the complex power balance of the input data** (full strength since the `Line` repair; asymmetric branch shunts included): loads in their voltage band, `u ∈ {0,1}`, `tap ≠ 0`. -/
+theorem physical_balance (r : RNet ℝ) (y : List ℝ) (k : Nat) (hN : r.Normal) :
     (Sbus r y k).re = busP r y k ∧ (Sbus r y k).im = busQ r y k := by
   unfold Sbus busP busQ
   simp only [add_re, add_im]
@@ -149,7 +121,7 @@ theorem physical_balance_partial (r : RNet ℝ) (y : List ℝ) (k : Nat) (hN : r
       · exact (line_from_side_is_pi_model e.d (hN.line_u e he) (hN.line_tap e he) _ _ _ _).1.symm
       · simp
     · split_ifs
-      · exact (line_to_side_is_pi_model_partial e.d (hN.line_u e he) (hN.line_tap e he) (hS e he).1 (hS e he).2 _ _ _ _).1.symm
+      · exact (line_to_side_is_pi_model e.d (hN.line_u e he) (hN.line_tap e he) _ _ _ _).1.symm
       · simp
   · refine congrArg₂ (· + ·) (congrArg₂ (· + ·) (congrArg₂ (· + ·) (congrArg₂ (· + ·) (congrArg₂ (· + ·) ?_ ?_) ?_) ?_) ?_) ?_
     all_goals rw [im_sum_map]
@@ -163,29 +135,29 @@ theorem physical_balance_partial (r : RNet ℝ) (y : List ℝ) (k : Nat) (hN : r
       · exact (line_from_side_is_pi_model e.d (hN.line_u e he) (hN.line_tap e he) _ _ _ _).2.symm
       · simp
     · split_ifs
-      · exact (line_to_side_is_pi_model_partial e.d (hN.line_u e he) (hN.line_tap e he) (hS e he).1 (hS e he).2 _ _ _ _).2.symm
+      · exact (line_to_side_is_pi_model e.d (hN.line_u e he) (hN.line_tap e he) _ _ _ _).2.symm
       · simp
 
-/-- **`converged_implies_balance`** (`_partial`: symmetric branch shunts): if every entry of the residual
+/-- **`converged_implies_balance`** (full strength): if every entry of the residual
 is below `tol`, the complex power balance computed from the input data holds within `tol` (active and
 reactive part) at every non-islanded bus — for every network. -/
-theorem converged_implies_balance_partial (net : Net ℝ) (y : List ℝ) (tol : ℝ) (wf : (resolve net).WF)
-    (hisl : ∀ p ∈ net.islanded, p < net.buses.length) (hN : (resolve net).Normal) (hS : (resolve net).SymShunts)
+theorem converged_implies_balance (net : Net ℝ) (y : List ℝ) (tol : ℝ) (wf : (resolve net).WF)
+    (hisl : ∀ p ∈ net.islanded, p < net.buses.length) (hN : (resolve net).Normal)
     (hconv : ∀ j, |(gOf net y).getD j 0| < tol) (k : Nat) (hk : k < net.buses.length) (hn : k ∉ net.islanded) :
     |(Sbus (resolve net) y k).re| < tol ∧ |(Sbus (resolve net) y k).im| < tol := by
   obtain ⟨b1, b2⟩ := bus_balance_of_residual net y wf hisl k hk hn
-  obtain ⟨p1, p2⟩ := physical_balance_partial (resolve net) y k hN hS
+  obtain ⟨p1, p2⟩ := physical_balance (resolve net) y k hN
   rw [p1, p2, ← b1, ← b2]
   exact ⟨hconv _, hconv _⟩
 
 /-- non-vacuity of the network hypotheses: a two-bus case (slack, one branch with charging and an off-nominal
-tap, one load) is well formed, in band and has symmetric shunts -/
-example : ∃ r : RNet ℝ, r.WF ∧ r.Normal ∧ r.SymShunts ∧ r.lines ≠ [] ∧ r.pqs ≠ [] ∧ r.slacks ≠ [] :=
+tap and ASYMMETRIC end shunts, one load) is well formed and in band -/
+example : ∃ r : RNet ℝ, r.WF ∧ r.Normal ∧ ¬ r.SymShunts ∧ r.lines ≠ [] ∧ r.pqs ≠ [] ∧ r.slacks ≠ [] :=
   ⟨⟨2, [⟨1, ⟨1, 0.5, 0.1, 0.8, 1.2⟩, ⟨1, 0, 0⟩⟩], [], [⟨0, ⟨1, 0, 0, 1, 0, -1, 9, -9, 9⟩, ⟨1, 0, 0⟩, ⟨1, 0, 0⟩⟩], [],
-     [⟨0, 1, ⟨1, 0.01, 0.1, 0, 0.02, 0, 0.01, 0, 0.01, 1.05, 0.1⟩⟩], []⟩,
+     [⟨0, 1, ⟨1, 0.01, 0.1, 0, 0.02, 0.01, 0.03, 0, 0.2, 1.05, 0.1⟩⟩], []⟩,
     ⟨by simp, by simp, by simp, by simp, by simp⟩,
     ⟨by simp, by simp; norm_num, by simp⟩,
-    by simp [RNet.SymShunts], by simp, by simp, by simp⟩
+    by simp [RNet.SymShunts]; norm_num, by simp, by simp, by simp⟩
 
 /-! ### 3. Independence of device order, index type and device base -/
 
@@ -327,19 +299,19 @@ theorem ext_table_is_modelled : extTable =
 
 /-! ### 5. The verdict of the Newton loop (model of C17) composed with the balance theorem -/
 
-/-- **A reported convergence means the network equations hold** (`_partial`: symmetric branch shunts): if
+/-- **A reported convergence means the network equations hold** (full strength): if
 `PFlow.nr_solve` returns `True` and its last recorded mismatch bounds the residual at the reported unknowns,
 then the complex power balance of the input data holds within `tol` at every non-islanded bus. -/
-theorem converged_power_flow_satisfies_network_equations_partial (tol : ℚ) (maxIter : Nat) (ms : List (Option ℚ))
+theorem converged_power_flow_satisfies_network_equations (tol : ℚ) (maxIter : Nat) (ms : List (Option ℚ))
     (n : Nat) (rec : List (Option ℚ)) (hrun : Andes.Newton.nrSolve tol maxIter ms = some (true, n, rec))
     (net : Net ℝ) (y : List ℝ) (wf : (resolve net).WF) (hisl : ∀ p ∈ net.islanded, p < net.buses.length)
-    (hN : (resolve net).Normal) (hS : (resolve net).SymShunts)
+    (hN : (resolve net).Normal)
     (hmis : ∀ x : ℚ, rec.getLast? = some (some x) → ∀ j, |(gOf net y).getD j 0| ≤ (x : ℝ))
     (k : Nat) (hk : k < net.buses.length) (hn : k ∉ net.islanded) :
     |(Sbus (resolve net) y k).re| < (tol : ℝ) ∧ |(Sbus (resolve net) y k).im| < (tol : ℝ) := by
   obtain ⟨x, hx, hlt⟩ := Andes.Newton.pflow_success_implies_residual tol maxIter ms n rec hrun
   have hlt' : (x : ℝ) < (tol : ℝ) := by exact_mod_cast hlt
-  exact converged_implies_balance_partial net y tol wf hisl hN hS
+  exact converged_implies_balance net y tol wf hisl hN
     (fun j => lt_of_le_of_lt (hmis x hx j) hlt') k hk hn
 
 end Andes.C01
